@@ -413,6 +413,9 @@ def save_safetensors(
                 )
             if tensor is None:
                 continue
+            if tensor.dtype == ir.DataType.STRING:
+                # String tensors have no byte representation; they always stay in the proto.
+                continue
             if name in initializer_names:
                 raise ValueError(
                     f"Duplicate initializer name found: {name} (in graph {graph.name!r})."
